@@ -28,6 +28,7 @@ func cmdSelftest(args []string) int {
 		Name    string `json:"name"`
 		Patch   string `json:"patch"`
 		Reverse bool   `json:"reverse"`
+		Benign  bool   `json:"benign"` // behaviour-preserving edit: the check must stay quiet
 		Outcome string `json:"outcome"` // caught | missed | not-applicable
 		Detail  string `json:"detail"`
 	}
@@ -39,7 +40,9 @@ func cmdSelftest(args []string) int {
 		if _, err := os.Stat(p); err != nil {
 			p = filepath.Join(d, "patch.diff")
 		}
-		entries = append(entries, &entry{Name: filepath.Base(d), Patch: p})
+		base := filepath.Base(d)
+		i := strings.LastIndex(base, "-")
+		entries = append(entries, &entry{Name: base, Patch: p, Benign: i >= 0 && strings.HasPrefix(base[i+1:], "b")})
 	}
 	can, _ := filepath.Glob(filepath.Join(*verif, "canaries", *prop+"-*.fix.diff"))
 	sort.Strings(can)
@@ -47,7 +50,7 @@ func cmdSelftest(args []string) int {
 		entries = append(entries, &entry{Name: strings.TrimSuffix(filepath.Base(p), ".fix.diff") + " (fix reverted)", Patch: p, Reverse: true})
 	}
 	self, _ := os.Executable()
-	caught, missed := 0, 0
+	caught, missed, quiet, falseAlarms := 0, 0, 0, 0
 	for _, e := range entries {
 		scratch, err := os.MkdirTemp("", "govc-selftest-")
 		if err != nil {
@@ -93,7 +96,15 @@ func cmdSelftest(args []string) int {
 					}
 				}
 			}
-			if len(viol) > 0 {
+			if e.Benign {
+				if len(viol) > 0 {
+					e.Outcome, e.Detail = "false-alarm", strings.Join(viol, ", ")
+					falseAlarms++
+				} else {
+					e.Outcome, e.Detail = "quiet", lastLine(string(out))
+					quiet++
+				}
+			} else if len(viol) > 0 {
 				e.Outcome, e.Detail = "caught", strings.Join(viol, ", ")
 				caught++
 			} else {
@@ -102,7 +113,7 @@ func cmdSelftest(args []string) int {
 			}
 		}()
 	}
-	rec := map[string]interface{}{"property": *prop, "entries": entries, "caught": caught, "missed": missed,
+	rec := map[string]interface{}{"property": *prop, "entries": entries, "caught": caught, "missed": missed, "benign_quiet": quiet, "benign_false_alarms": falseAlarms,
 		"note": "scratch copies of the working tree under the system temp directory, removed after each entry"}
 	b, _ := json.MarshalIndent(rec, "", " ")
 	os.MkdirAll(filepath.Join(*verif, "evidence"), 0o755)
@@ -110,7 +121,7 @@ func cmdSelftest(args []string) int {
 	for _, e := range entries {
 		fmt.Printf("SELFTEST %s %s: %s\n", *prop, e.Name, e.Outcome)
 	}
-	fmt.Printf("SELFTEST %s: %d entries, %d caught, %d missed\n", *prop, len(entries), caught, missed)
+	fmt.Printf("SELFTEST %s: %d entries, %d caught, %d missed, %d behaviour-preserving edits quiet, %d false alarms\n", *prop, len(entries), caught, missed, quiet, falseAlarms)
 	return 0
 }
 
@@ -192,4 +203,9 @@ func cmdReplay(args []string) int {
 	}
 	fmt.Println("current tree: the obligation is discharged (or the function is no longer under that contract)")
 	return 0
+}
+
+func lastLine(s string) string {
+	ls := strings.Split(strings.TrimSpace(s), "\n")
+	return ls[len(ls)-1]
 }
